@@ -365,6 +365,11 @@ class Interp:
                 r = table.get(sg, {}).get(v.val)
                 if r is not None:
                     return bool(r)
+            h = self.hooks.get('fork')
+            if h is not None:
+                r = h(self, st, v, fr)
+                if r is not None:
+                    return r
             raise AnalysisError(f'{fr.mod.where(st)}: branch on a symbolic condition `{ast.unparse(st.test)[:80]}`')
         if isinstance(v, Opaque):
             h = self.hooks.get('branch')
@@ -1128,3 +1133,62 @@ def _as_load(t):
         if hasattr(n, 'ctx'):
             n.ctx = ast.Load()
     return t2
+
+
+
+class PathExplorer:
+    """Depth-first enumeration of the outcomes of data-dependent branches (conditions neither constant nor decided by the sign domain).
+    `run(fn)` calls fn(fork_hook) once per path; fork_hook is installed as the interpreter's 'fork' hook.  Each result is (trace, value) with
+    trace = [(condition node, 'file:line', source text, outcome)].  A strict-inequality region of real-analytic quantities and its complement
+    both have non-empty interior, so an algebraic identity demanded "for all inputs" must hold identically on each explored arm."""
+
+    def __init__(self, max_paths=32):
+        self.max_paths = max_paths
+
+    def run(self, fn):
+        pending = [[]]
+        results = []
+        while pending:
+            prefix = pending.pop()
+            trace = []
+
+            def fork(it, st, v, fr, prefix=prefix, trace=trace):
+                i = len(trace)
+                where = fr.mod.where(st); txt = ast.unparse(st.test)[:80] if hasattr(st, 'test') else ast.unparse(st)[:80]
+                if i < len(prefix):
+                    out = prefix[i]
+                else:
+                    out = True
+                    pending.append([t[3] for t in trace] + [False])
+                trace.append((v, where, txt, out))
+                return out
+            val = fn(fork)
+            results.append((trace, val))
+            if len(results) > self.max_paths:
+                raise AnalysisError(f'more than {self.max_paths} paths through data-dependent branches')
+        return results
+
+    @staticmethod
+    def arm(v, outcome):
+        """('open', None) for an arm with non-empty interior; ('equality', pins | None) for a measure-zero arm (x == 0, or the
+        complement of |x| > 0): pins name the atoms that vanish there when that can be read off, else None (arm not decidable by PIT)."""
+        from .regions import sign_of, NONNEG, NONPOS
+        if not isinstance(v, Node) or v.op != 'cmp':
+            return ('open', None)
+        dlt = X.add(v.args[0], X.neg(v.args[1]))
+        sg = sign_of(dlt)
+        eqarm = (v.val == '==' and outcome) or (v.val == '!=' and not outcome) or \
+                (sg == NONNEG and ((v.val == '>' and not outcome) or (v.val == '<=' and outcome))) or \
+                (sg == NONPOS and ((v.val == '<' and not outcome) or (v.val == '>=' and outcome)))
+        if not eqarm:
+            return ('open', None)
+        t = dlt
+        while t.op == 'fn' and t.val in ('abs', 'abs2', 'sqrt') and len(t.args) == 1:
+            t = t.args[0]
+        if t.op == 'atom':
+            return ('equality', {t.val[0]: 0})
+        return ('equality', None)
+
+    @staticmethod
+    def label(trace):
+        return '' if not trace else ' [path: ' + ' and '.join(f'{"" if o else "not "}({t})' for (_, _, t, o) in trace) + ']'
